@@ -3,7 +3,7 @@
 usage: run_seeds.py [--tier quick] [--props C04,C05] [seed ...]   (default: all seeds, own property only)
 Results are appended to /verif/seeded/RESULTS.jsonl"""
 import json, os, subprocess, sys, time, argparse
-ap = argparse.ArgumentParser(); ap.add_argument('seeds', nargs='*'); ap.add_argument('--tier', default='quick'); ap.add_argument('--props', default=None); ap.add_argument('--timeout', type=int, default=3600)
+ap = argparse.ArgumentParser(); ap.add_argument('seeds', nargs='*'); ap.add_argument('--tier', default='quick'); ap.add_argument('--props', default=None); ap.add_argument('--timeout', type=int, default=3600); ap.add_argument('--only', default=None)
 a = ap.parse_args()
 SD = '/verif/seeded'
 seeds = a.seeds or sorted(d for d in os.listdir(SD) if os.path.isdir(os.path.join(SD, d)))
@@ -26,7 +26,7 @@ for s in seeds:
         t0 = time.time()
         env = dict(os.environ, VERIF_REPO=wt)
         try:
-            r = subprocess.run(['/verif/check', p, '--tier', a.tier], capture_output=True, text=True, env=env, timeout=a.timeout)
+            r = subprocess.run(['/verif/check', p, '--tier', a.tier] + (['--only', a.only] if a.only else []), capture_output=True, text=True, env=env, timeout=a.timeout)
             rc, out = r.returncode, r.stdout
         except subprocess.TimeoutExpired:
             rc, out = 124, ''
